@@ -92,7 +92,7 @@ impl<R: Read + Seek> ReadBox<&mut R> for StblBox {
             // Get box header.
             let header = BoxHeader::read(reader)?;
             let BoxHeader { name, size: s } = header;
-            if s > size {
+            if s > size || s < HEADER_SIZE {
                 return Err(Error::InvalidData(
                     "stbl box contains a box with a larger size than it",
                 ));
